@@ -165,6 +165,11 @@ pub const N_OPS: u64 = 64;
 /// propagates to the stream runner's totality monitor.
 pub fn step(l: &mut Local, mode: Mode, st: &mut St, rng: &mut Rng, words: &Words) {
     let op = rng.below(N_OPS);
+    step_op(l, mode, st, rng, words, op)
+}
+
+/// Applies operation number `op` (0..N_OPS).
+pub fn step_op(l: &mut Local, mode: Mode, st: &mut St, rng: &mut Rng, words: &Words, op: u64) {
     macro_rules! note { ($($a:tt)*) => { st.log.push(format!($($a)*)) }; }
     match op {
         // ------------------------------------------------ seeding: parse
